@@ -223,7 +223,7 @@ func (tr *verifTr) goStmt(gs *ast.GoStmt) any {
 			name = id.Name
 		}
 
-		if tr.isUser && name == "GoRoutine" {
+		if tr.isUser && (name == "GoRoutine" || name == "goRoutine") {
 			tr.sites = append(tr.sites, verifSite{Line: line, Kind: "user", Why: "goByteCode launches GoRoutine (user-program goroutine)"})
 
 			return []any{"spawn", g, "user", 0}
